@@ -8,6 +8,7 @@ over the abstract machine: any instructions, any result type, any nesting), and 
 on depth or branching).
 -/
 import X86Model.Proofs.Interrupts
+import X86Model.Spec.AsmOptions
 
 namespace X86.C17
 open X86 X86.Spec X86.Consts X86.Interrupts
@@ -241,5 +242,32 @@ example : (Prog.wi (.seq (.wi (.ret 1)) (.seq .query (.ret 2)))).spec true =
 example : (Prog.wi .enable).bodiesPreserve = false := by decide
 example : flagEvs (run (.wi (.wi (.ret 5))) cOn).trace = [.cli, .sti] := by decide
 example : flagEvs (run (.wi (.wi (.ret 5))) cOff).trace = [] := by decide
+
+/-! ### The `asm!` blocks behind this property (re-extracted from the source on every run)
+
+`Generated.asmSites` is rewritten by `translator/gen_asm.py` from the `asm!` invocations of the
+crate; the theorems below are re-checked by the kernel against what the source says now. They
+constrain what the compiler may do with the blocks (delete, merge, hoist, reorder memory accesses
+across them) — behaviour that only shows in particular build profiles. -/
+
+/-- Every `asm!` block of the files this property is anchored in carries only options its
+instructions admit (`Spec/AsmOptions.lean`): no `pure` on instructions with side effects, no
+`nomem`/`readonly` where the hardware dereferences the operand, no `nostack` on pushes/pops. -/
+theorem asm_options_admissible :
+    ∀ s ∈ Spec.AsmOptions.sitesOfFiles ["src/instructions/interrupts.rs", "src/registers/rflags.rs"], Spec.AsmOptions.admissible s = true := by
+  decide +kernel
+
+example : (Spec.AsmOptions.sitesOfFiles ["src/instructions/interrupts.rs", "src/registers/rflags.rs"]).length > 0 := by decide +kernel
+
+/-- `enable` is one block `sti`, `disable` one block `cli` (neither `nomem`: they are the compiler
+barriers that keep the closure's memory accesses between them — part of `asm_options_admissible`),
+and **`enable_and_hlt` is a single block `sti; hlt`**: no instruction can be scheduled between the
+two, in any build profile. The RFLAGS read is `pushfq; pop`. -/
+theorem interrupt_blocks_shape :
+    Spec.AsmOptions.blocksOf "src/instructions/interrupts.rs" "enable" = [["sti"]] ∧
+    Spec.AsmOptions.blocksOf "src/instructions/interrupts.rs" "disable" = [["cli"]] ∧
+    Spec.AsmOptions.blocksOf "src/instructions/interrupts.rs" "enable_and_hlt" = [["sti", "hlt"]] ∧
+    Spec.AsmOptions.blocksOf "src/registers/rflags.rs" "read_raw" = [["pushfq", "pop {}"]] := by
+  decide +kernel
 
 end X86.C17
